@@ -109,14 +109,14 @@ Print Assumptions C04_fuel_suffices.
    on the write side changes).  So the LTS's atomic RFrame is a sound abstraction of header
    decode + dispatch + buffering + handler consumption + drain, and theorems about LTS runs
    speak about real byte streams.  The byte model is taken at maxbuf = max_buffered, with
-   registrations as separate LTS events (e_register = []) and e_close_sent = true; how the
-   stream's end corresponds to PeerEOF, and the two inputs on which the models differ, are
-   Refine.refine_eof_* and Refine.disagree_*. *)
+   registrations as separate LTS events (e_register = []) and e_close_sent = Model.close_sent s
+   ([Refine.read_env]); how every way of ending the stream — at a boundary, inside a header,
+   inside a payload on each dispatch path — corresponds to PeerEOF is Refine.refine_eof_*. *)
 Theorem C04_read_loop_refines_lts :
   forall (tag : list N -> N) (info_of : N -> list N -> Types.info) (cfg : Types.config)
          (fs : list frame) (s : Types.state) (st : state) (env : nat -> env_step) (rest : list byte),
   Forall frame_wf fs -> Types.reader s = Types.RRead -> Types.closed s = false ->
-  Refine.rel st s -> InvCore.core_inv cfg s -> Refine.read_env env ->
+  Refine.rel st s -> InvCore.core_inv cfg s -> Refine.read_env env s ->
   let r := serve Types.max_buffered (Refine.cfg_of cfg) st env (concat (map frame_bytes fs) ++ rest) in
   let log := firstn (length fs) (r_log r) in
   r = prepend log (serve_from Types.max_buffered (Refine.cfg_of cfg)
